@@ -41,8 +41,13 @@ type childDump struct {
 
 func IsChild() bool { return os.Getenv("VERIF_CHILD_OUT") != "" }
 
-func (r *Run) dumpChild(path string) {
-	d := childDump{Evals: r.evals, Samples: r.samples, Counters: r.counters, Sets: map[string][]string{}, Inconclusive: r.inconclusive, Broken: r.broken, Notes: r.notes, Done: true, Violations: r.childViols}
+func (r *Run) dumpChild(path string) { r.dumpChildAs(path, true) }
+
+// dumpChildAs writes the child's results; done=false marks a partial result written the
+// moment a violation is recorded, so that a child that later runs into its watchdog (a
+// break can make later scenarios spin) does not take its witnesses with it.
+func (r *Run) dumpChildAs(path string, done bool) {
+	d := childDump{Evals: r.evals, Samples: r.samples, Counters: r.counters, Sets: map[string][]string{}, Inconclusive: r.inconclusive, Broken: r.broken, Notes: r.notes, Done: done, Violations: r.childViols}
 	for s := range r.distinct {
 		d.Distinct = append(d.Distinct, s)
 	}
